@@ -301,6 +301,7 @@ var strategies = []string{
 	"S8-commit-reveal-first", "S8-reveal-before-commit",
 	"S10-weak-commitment-empty-adaptive-key", "S10-weak-commitment-prefix-adaptive-key",
 	"S9-consistent-key-off-polynomial", "S9-consistent-key-too-few-components", "S9-consistent-key-too-many-components",
+	"S9-consistent-key-not-a-point", "S9-consistent-key-truncated", "S9-consistent-key-empty", "S9-consistent-key-one-byte",
 	"S11-dealer-polynomial-of-degree-t",
 }
 
@@ -686,10 +687,19 @@ func run(c *harness.C, k cell, r world.Chooser) *out {
 			if id == k.Dev {
 				if strings.HasPrefix(k.Strategy, "S9") {
 					key := cd.otherKey(33)
-					if strings.Contains(k.Strategy, "too-few") {
+					switch {
+					case strings.Contains(k.Strategy, "too-few"):
 						key = cd.wrongCount(key, false)
-					} else if strings.Contains(k.Strategy, "too-many") {
+					case strings.Contains(k.Strategy, "too-many"):
 						key = cd.wrongCount(key, true)
+					case strings.Contains(k.Strategy, "not-a-point"):
+						key = cd.notAPoint(key)
+					case strings.Contains(k.Strategy, "truncated"):
+						key = key[:len(key)/2]
+					case strings.Contains(k.Strategy, "empty"):
+						key = []byte{}
+					case strings.Contains(k.Strategy, "one-byte"):
+						key = []byte{4}
 					}
 					return &keyShifter{KeyGenerator: inner, key: key}
 				}
@@ -910,6 +920,17 @@ func runCell(c *harness.C, k cell, bound int) {
 		c.Add("transitions", len(last.trace))
 		kk := k
 		kk.Choices = explore.Trim(r.Choices())
+		if malformedOnly {
+			// C10's slice of this exploration: malformed but consistently committed material must
+			// not crash a party (crashes are attributed by the driver) nor make KeyGen hang
+			for _, id := range honestOf(kk) {
+				if r := last.res[id]; r == nil || !r.Returned {
+					c.Violation("no-hang", "c10-keygen-hangs-on-malformed-dkg-material:"+kk.Backend+"/"+kk.Strategy, fmt.Sprintf("%s: honest party %d did not return by the deadline", kk.id(), id), kk)
+				}
+			}
+			c.Outcome(k.id())
+			return
+		}
 		oc := oracle(c, kk, last)
 		if c.Outcome(k.id() + "|" + oc + "|" + fmt.Sprint(len(last.trace))) {
 			c.Sample("c05", map[string]interface{}{"cell": k.id(), "choices": kk.Choices, "outcome": oc, "steps": len(last.trace)})
@@ -930,7 +951,14 @@ func runCell(c *harness.C, k cell, bound int) {
 	e.Explore(nil, nil, bound)
 }
 
+var malformedOnly = os.Getenv("VERIF_FAMILY") == "malformed"
+
 func gen(c *harness.C) []harness.Case {
+	if malformedOnly {
+		if p := os.Getenv("VERIF_PROP"); p != "" {
+			c.Property = p
+		}
+	}
 	c.Note("rule", "cells = backend (BLS, PS) x (n,t) incl. t=n x position of the deviating participant x strategy from the catalogue ("+strings.Join(strategies, ", ")+") x victim set (every non-empty subset of the honest parties); the deviator is a real instance behind an output filter; default schedule per cell (+ all <=1-deviation schedules where stated); distinct_nontrivial = distinct (cell, outcome, step count)")
 	if r := c.Replay; r != nil {
 		var k cell
@@ -953,7 +981,7 @@ func gen(c *harness.C) []harness.Case {
 				base := cell{Backend: be, NN: x.n, TT: x.t, Dev: dev}
 				onlyS11 := !c.Thorough() && (x.n == 4 && x.t == 2 || x.n == 5)
 				for _, s := range directStrategies {
-					if onlyS11 {
+					if onlyS11 || malformedOnly {
 						break
 					}
 					k := base
@@ -962,6 +990,9 @@ func gen(c *harness.C) []harness.Case {
 				}
 				for _, s := range strategies {
 					if onlyS11 && !strings.HasPrefix(s, "S11") && s != "honest" {
+						continue
+					}
+					if malformedOnly && !(strings.HasPrefix(s, "S5") || strings.HasPrefix(s, "S9-consistent-key-") && !strings.Contains(s, "off-polynomial")) {
 						continue
 					}
 					vs := nonEmptySubsets(honestOf(base))
